@@ -164,10 +164,10 @@ def run(ctx):
             continue
         text_a, text_b = C.join(lines), C.join(new)
         if name not in base_cache:
-            base_cache[name] = runner.run(text_a, ["-q"], write=False)
+            base_cache[name] = runner.run(text_a, ["-q"], write=True)
             ctx.count()
         ra = base_cache[name]
-        rb = runner.run(text_b, ["-q"], write=False)
+        rb = runner.run(text_b, ["-q"], write=(d["mode"] == "none"))
         ctx.count()
         meta = {"input": name, "desc": d, "pdb": text_b, "orig": text_a}
         if ra.exc is not None or rb.exc is not None:
@@ -175,7 +175,7 @@ def run(ctx):
                 ctx.violation(f"relabel:exception:{d['mode']}:{name}", f"relabelled input raises {rb.exc!r}", meta)
             continue
         ctx.nontriv((name, json.dumps(d, sort_keys=True)))
-        rels.append(relations.relate("SameUpToLabels", ra, text_a, rb, text_b, meta=meta))
+        rels.append(relations.relate("SameUpToLabels", ra, text_a, rb, text_b, meta=meta, roworder=(d["mode"] == "none")))
     # the same relabellings under a chain selection: `-c <first chain>` before and after renaming
     sel_base = {}
     done = set()
@@ -201,7 +201,7 @@ def run(ctx):
         ctx.nontriv((name, cmkey, "-c"))
         rels.append(relations.relate("SameUpToLabels", ra, text_a, rb, text_b,
                                      meta={"input": name + " -c", "desc": d, "pdb": text_b, "orig": text_a}))
-    viol = relations.validate(ctx, rels, ["SameConfs", "SameUpToLabels"], "relabelled vs baseline")
+    viol = relations.validate(ctx, rels, ["SameConfs", "SameUpToLabels", "RowOrderSame"], "relabelled vs baseline")
     reported = set()
     pending = []
     for inv, lst in sorted(viol.items()):
@@ -212,6 +212,9 @@ def run(ctx):
             diffs = relations.diff_summary(rel, limit=3)
             field = "desolvation" if any(" nv:" in x or " ev6:" in x or " bur4:" in x for x in diffs) else "scoring"
             key = f"relabel:{twins}:{field}:{m['input']}:{d['mode']}"
+            if inv == "RowOrderSame":
+                key = f"relabel:row-order:{m['input']}:{d['mode']}"
+                diffs = [f"rows of the written file come in another order: {rel['rowsA'][:12]} ... vs {rel['rowsB'][:12]} ..."]
             if key in reported:
                 continue
             reported.add(key)
